@@ -91,14 +91,27 @@ fn adepth(v: &RespValue) -> usize {
 
 fn mode_frames(rng: &mut Rng, n: u64) {
     let max_depth = arg_u64("--max-depth", 128) as usize;
+    // fixed edge values first, whatever the seed: the smallest frames of every kind, arrays of minimal elements, the limits
+    let edge: Vec<RespValue> = {
+        use RespValue::*;
+        let ss = |s: &str| SimpleString(s.to_string());
+        let mut e = vec![ss(""), Error(String::new()), Integer(0), Integer(-1), Integer(i64::MIN), Integer(i64::MAX), BulkString(None), BulkString(Some(String::new())),
+                         BulkString(Some("\r\n".into())), Array(vec![]), Array(vec![Array(vec![])]),
+                         Array(vec![ss("")]), Array(vec![Error(String::new())]), Array(vec![ss(""), ss("")]), Array(vec![ss(""), Error(String::new()), ss("")]),
+                         Array((0..7).map(|_| ss("")).collect()), Array(vec![BulkString(None)]), Array(vec![BulkString(Some(String::new()))]), Array(vec![Integer(0)]),
+                         Array(vec![Array(vec![ss("")]), ss("")]), Array(vec![BulkString(Some("PING".into())), Array(vec![ss("")])])];
+        for d in [1usize, 2, 126, 127, 128, 129] { e.push(nest(Integer(42), d)); e.push(nest(ss(""), d)); e.push(nest(Array(vec![]), d)); }
+        e
+    };
     for i in 0..n {
         // 1 in 6 values carries CR/LF inside simple strings / errors (not round-trippable; still compared with the model)
-        let crlf_lines = rng.chance(1, 6);
-        let mut v = gen_value(rng, 4, crlf_lines);
+        let fixed = (i as usize) < edge.len();
+        let crlf_lines = !fixed && rng.chance(1, 6);
+        let mut v = if fixed { edge[i as usize].clone() } else { gen_value(rng, 4, crlf_lines) };
         // deep nesting around the limit
-        if rng.chance(1, 8) { v = nest(v, *rng.pick(&[120usize, 126, 127, 128, 129, 200])); }
+        if !fixed && rng.chance(1, 8) { v = nest(v, *rng.pick(&[120usize, 126, 127, 128, 129, 200])); }
         let enc = RespSerializer::serialize(&v);
-        let rest_len = rng.below(4) as usize;
+        let rest_len = if fixed { 0 } else { rng.below(4) as usize };
         let mut buf = enc.clone();
         for _ in 0..rest_len { buf.push(*rng.pick(&ALPHABET)); }
         let mut p = RespParser::new();
